@@ -105,7 +105,7 @@ def run(ctx: Ctx) -> Outcome:
         cases = [ctx.replay['replay']['case']]
     else:
         cases = build_cases(ctx)
-    results = cc.run_cases(cc.run_compile_case, cases, procs=12)
+    results = cc.run_compile_cases(cases, procs=12)
     sem, keep = [], []
     timeouts = herr = 0
     for c, r in zip(cases, results):
